@@ -32,7 +32,7 @@ PROPERTY = "C39"
 ENCODED = [isp.compute_protocol_hash]
 _NL = pick(2, 3)
 _CL = pick(1, 2)
-BOUNDS = "(a) 0..2 rows, every flag combination of the first row, arbitrary opaque values; (b) names/protocol name = any byte strings <= %d bytes without 0x1e/0x1f, blob content <= 2 bytes, remainder <= %d bytes, any number of rows by induction; (c) protocol names <= %d chars" % (pick(3, 4), pick(3, 4), _NL + 1)
+BOUNDS = "(a) 0..2 rows, every flag combination of the first row, arbitrary opaque values; every single edit of one of the five per-row flags (is_exchange tri-state) changes the hashed bytes; (b) names/protocol name = any byte strings <= %d bytes without 0x1e/0x1f, blob content <= 2 bytes, remainder <= %d bytes, any number of rows by induction; (c) protocol names <= %d chars" % (pick(3, 4), pick(3, 4), _NL + 1)
 OUTSIDE = (
     "build_describe_batch <-> parse_describe_batch fidelity and cross-process stability of Arrow schema serialisation; "
     "the __describe__ exemption from the version gate (C09); SHA-256 itself; rows are taken in the order given (sorting by name is build_describe_batch's)"
@@ -405,6 +405,103 @@ def hashed_sequence_is_header_then_each_row_in_order(n: int, at: int, ar: bool, 
     return True
 
 
+def _merged(chunks):  # type: ignore[no-untyped-def]
+    """The hashed stream as a sequence of opaque atoms and maximal runs of literal bytes (update() boundaries do not
+    matter to a hash).  Two calls with the same atoms hash the same bytes iff these sequences are equal."""
+    out: list = []
+    for c in chunks:
+        if isinstance(c, _Atom):
+            out.append(c)
+        elif isinstance(c, (bytes, bytearray)):
+            if out and isinstance(out[-1], bytes):
+                out[-1] = out[-1] + bytes(c)
+            else:
+                out.append(bytes(c))
+        else:
+            raise HarnessModelError("update() argument that is neither bytes nor an opaque field value")
+    return out
+
+
+def _same_merged(a, b) -> bool:  # type: ignore[no-untyped-def]
+    if len(a) != len(b):
+        return False
+    for x, y in zip(a, b):
+        if isinstance(x, _Atom) or isinstance(y, _Atom):
+            if x is not y:
+                return False
+        elif x != y:
+            return False
+    return True
+
+
+def _flag_row(t: int, r: bool, h: bool, x: int, z: bool, atoms):  # type: ignore[no-untyped-def]
+    name, params, result, header = atoms
+    return (name, _TYPES[t], r, params, result, h, None if z else header, None if x == 0 else x == 2)
+
+
+def _edited_flags(at: int, ar: bool, ah: bool, ax: int, az: bool, which: int, v: int):  # type: ignore[no-untyped-def]
+    """One wire-relevant flag of the row changed: 0 method_type, 1 has_return, 2 has_header, 3 is_exchange
+    (tri-state: absent / False / True), 4 header schema present / absent."""
+    bt, br, bh, bx, bz = at, ar, ah, ax, az
+    if which == 0:
+        bt = (at + 1 + v) % len(_TYPES)
+    elif which == 1:
+        br = not ar
+    elif which == 2:
+        bh = not ah
+    elif which == 3:
+        bx = (ax + 1 + v) % 3
+    else:
+        bz = not az
+    return bt, br, bh, bx, bz
+
+
+def _real_flag_row(name: bytes, t: int, r: bool, h: bool, x: int, z: bool) -> dict:
+    return {"name": name, "method_type": _TYPES[t], "has_return": r, "params_schema_ipc": b"\x01p", "result_schema_ipc": b"\x01r",
+            "has_header": h, "header_schema_ipc": None if z else b"\x01h", "is_exchange": None if x == 0 else x == 2}
+
+
+def _replay_flag_edit(args: dict) -> str | None:
+    """Real function, real sha256, real pyarrow batch: the row with the witness's flags and the same row with the one
+    flag edited.  VIOLATION only when these two different descriptions really share the hash."""
+    a = (args["at"], bool(args["ar"]), bool(args["ah"]), args["ax"], bool(args["az"]))
+    b = _edited_flags(*a, args["which"], args["v"])
+    if a == b:
+        return None
+    da = {"protocol_name": b"P", "rows": [_real_flag_row(b"m", *a)]}
+    db = {"protocol_name": b"P", "rows": [_real_flag_row(b"m", *b)]}
+    out = _replay_pair(da, db)
+    return out["detail"] if out["verdict"] == "VIOLATION" else None
+
+
+def _sig_flag_edit(args: dict, conc) -> str:  # type: ignore[no-untyped-def]
+    return "C39:protocol-hash:flag-edit-keeps-hash:" + ["method_type", "has_return", "has_header", "is_exchange", "header_schema_ipc"][args["which"]]
+
+
+@cond(q=60, t=200, stubs=["hashlib := recording ideal sha256", "describe batch := fake column accessors", "field values := opaque atoms"],
+      encoded=[isp.compute_protocol_hash], replay=_replay_flag_edit, signature=_sig_flag_edit,
+      bound="one row, every combination of method_type x has_return x has_header x is_exchange (absent/False/True) x header schema (absent/present), "
+            "every single edit of one of these five; name and schema blobs arbitrary (opaque, identical on both sides)")
+def single_flag_edit_changes_hashed_bytes(at: int, ar: bool, ah: bool, ax: int, az: bool, which: int, v: int) -> bool:
+    """
+    pre: 0 <= at < len(_TYPES) and 0 <= ax <= 2 and 0 <= which <= 4 and 0 <= v <= 1
+    post: _
+    """
+    # decided on the real bytecode (helpers it calls included), independently of the AST translator: with every
+    # other field identical, editing one flag must change the bytes handed to the hash - "differs whenever any
+    # wire-relevant detail differs" - and the same description must hash the same bytes twice (stable identity)
+    bt, br, bh, bx, bz = _edited_flags(at, ar, ah, ax, az, which, v)
+    atoms = (_atom_text("name"), _Atom("params"), _Atom("result"), _Atom("header"))
+    pn = _atom_text("pname")
+    ca = _merged(_raw_chunks(pn, [_flag_row(at, ar, ah, ax, az, atoms)]))
+    cb = _merged(_raw_chunks(pn, [_flag_row(bt, br, bh, bx, bz, atoms)]))
+    again = _merged(_raw_chunks(pn, [_flag_row(at, ar, ah, ax, az, atoms)]))
+    if not _same_merged(ca, again):
+        return False
+    same = at == bt and ar == br and ah == bh and ax == bx and az == bz
+    return _same_merged(ca, cb) == same
+
+
 _PIECES: list = []
 
 
@@ -531,6 +628,49 @@ def _eval_cond(node, v, cell):  # type: ignore[no-untyped-def]
     return _eval_cond(node.body if truth(node.test) else node.orelse, v, cell)
 
 
+def _inline_helpers(node, depth: int = 0):  # type: ignore[no-untyped-def]
+    """Calls of single-expression helper functions of the introspect module (``def f(a, b): return <expr>``,
+    positional arguments) are replaced by that expression with the parameters substituted, from the helper's live
+    source - so a hash that routes its pieces through small helpers is translated like the inline spelling.
+    Anything else is left as it is (and, if the translator then meets it, reported as Unsupported)."""
+    import copy
+
+    if depth > 4:
+        return node
+
+    class Sub(ast.NodeTransformer):
+        def __init__(self, env):  # type: ignore[no-untyped-def]
+            self.env = env
+
+        def visit_Name(self, n):  # type: ignore[no-untyped-def]
+            return copy.deepcopy(self.env[n.id]) if n.id in self.env else n
+
+    class Inline(ast.NodeTransformer):
+        def visit_Call(self, n):  # type: ignore[no-untyped-def]
+            self.generic_visit(n)
+            if not (isinstance(n.func, ast.Name) and not n.keywords):
+                return n
+            f = getattr(isp, n.func.id, None)
+            if not isinstance(f, types.FunctionType) or f.__module__ != isp.__name__:
+                return n
+            try:
+                fdef = ast.parse(textwrap.dedent(inspect.getsource(f))).body[0]
+            except (OSError, TypeError, SyntaxError):
+                return n
+            if not isinstance(fdef, ast.FunctionDef) or fdef.decorator_list:
+                return n
+            a = fdef.args
+            if a.vararg or a.kwarg or a.kwonlyargs or a.posonlyargs or a.defaults or len(a.args) != len(n.args):
+                return n
+            body = [s for s in fdef.body if not (isinstance(s, ast.Expr) and isinstance(s.value, ast.Constant))]
+            if len(body) != 1 or not isinstance(body[0], ast.Return) or body[0].value is None:
+                return n
+            expr = Sub({p.arg: arg for p, arg in zip(a.args, n.args)}).visit(copy.deepcopy(body[0].value))
+            return _inline_helpers(expr, depth + 1)
+
+    return Inline().visit(copy.deepcopy(node))
+
+
 def _pieces_from_ast():  # type: ignore[no-untyped-def]
     """compute_protocol_hash -> (header pieces, per-row pieces).
 
@@ -570,6 +710,7 @@ def _pieces_from_ast():  # type: ignore[no-untyped-def]
         raise Unsupported("branch value is not a bytes literal")
 
     def piece(node, loopvar, local):  # type: ignore[no-untyped-def]
+        node = _inline_helpers(node)  # h.update(_helper(cell)) -> h.update(<helper's return expression over cell>)
         if isinstance(node, ast.Constant) and isinstance(node.value, bytes):
             return ("lit", node.value)
         if isinstance(node, ast.Name) and loopvar is None:
@@ -1035,6 +1176,12 @@ def hash_input_is_injective(budget: float, replay=None) -> dict:
     try:
         header, rowp = _pieces_from_ast()
     except Unsupported as e:
+        # nothing is decided by the solver here.  A real collision between two different real descriptions is a breach
+        # whoever finds it, so the concrete single-edit battery (otherwise only a replay helper) is at least tried.
+        hit = _replay_single_edits()
+        if hit:
+            return {"verdict": "VIOLATION", "replayed": True, "signature": "C39:protocol-hash:payload-not-injective:untranslated", "queries": 0, "discharged": 0,
+                    "detail": f"(translator does not cover the code: {e}) real single-edit battery: {hit}"}
         return {"verdict": "INCONCLUSIVE", "detail": f"compute_protocol_hash uses a construct outside the translator: {e}", "queries": 0, "discharged": 0}
     # every describe column must take part (a wire-relevant column left out of the hash is a defect by itself)
     used = {p[1] for p in rowp if p[0] != "lit"}
